@@ -123,7 +123,11 @@ def menu(state):
         k0 = next((k for k in U if lib.to_frac(k) == interior[0]))
         m += [("knot_insert", [k0], True, "existing"), ("knot_insert", [k0] * (p + 2), True, "excess"),
               ("knot_remove", [k0], True, "existing"), ("knot_remove_forced", [k0], True, "existing"),
-              ("knot_clean_nodes", [k0], True, "existing")]
+              ("knot_clean_nodes", [k0], True, "existing"),
+              # several nodes in one request, the later ones impossible: all or nothing
+              ("knot_remove", [k0, L(b + 1)], True, "existing_then_outside"),
+              ("knot_remove", [k0] * (sum(1 for k in Ue if k == interior[0]) + 1), True, "too_many"),
+              ("knot_remove", [k0, U[-1]], True, "existing_then_end")]
     m += [("knot_insert", [L(a - 1)], True, "below"), ("knot_insert", [L(b + 1)], True, "above"),
           ("knot_insert", [U[0], U[-1]], True, "balanced_ends"), ("knot_insert", ["asd", 3, None], True, "nonnumeric"),
           ("knot_insert", [L(mid), L(b + 1)], True, "mid_and_above"),
